@@ -736,6 +736,15 @@ def gen_task(task, tier):
                 j = lemma_str_json(s, lang, P)
                 for calls in ([], NAT, rng.choice([ORD, RAW, ROM, [["dOpt", [["mprecision", rng.randint(0, 6)]]]]])):
                     lines.append(no_line(lang, j, calls))
+            # integers written as digit strings, beyond the doubles too: the exact integer is meant
+            big = [2 ** 53 + 1, -(2 ** 53 + 1), 2 ** 53 + 3, 2 ** 53, 10 ** 16 + 1, 10 ** 17 + 1, -(10 ** 17 + 1), 10 ** 20 + 1,
+                   10 ** 21 - 1, 1 - 10 ** 21, 2 ** 63 + 1, 2 ** 64 - 1, 123456789012345678901, 99999999999999999, 7, -45, 1000001]
+            big += [rng.randrange(2 ** 53, 10 ** 21) * rng.choice([1, 1, -1]) for _ in range(40 if tier != "thorough" else 4000)]
+            big += [sample_int(rng) for _ in range(40 if tier != "thorough" else 4000)]
+            for n in big:
+                j = lemma_str_json(("+" if (n > 0 and rng.random() < 0.1) else "") + str(n), lang, P)
+                for calls in ([], NAT, RAW) + ((ORD,) if n >= 0 else ()):
+                    lines.append(no_line(lang, j, calls))
             # all the lexicon's number words
             for w, info in sorted(P["lex"][lang].items()):
                 if "value" in info:
@@ -810,13 +819,24 @@ def gen_task(task, tier):
 # one task: model, implementation, comparison, oracle
 # ===================================================================================================================
 
+DIGIT_STRING = re.compile(r"^[-+]?[0-9]+$")
+
+
+def lemma_value(lem):
+    """the number a lemma stands for, when that is beyond discussion: an int, a float, or a STRING of decimal digits
+    with an optional sign (no separator, no exponent, not a lexicon word) - the exact integer, whatever its size"""
+    if lem["t"] in ("int", "flt", "special"):
+        return val_py(lem)
+    if lem["t"] == "str" and lem.get("lex") is None and DIGIT_STRING.match(lem["s"]):
+        return int(lem["s"])
+    return None
+
+
 def line_value(line):
     lem = line.get("lemma")
     if lem is None:
         return int(line["n"])
-    if lem["t"] in ("int", "flt", "special"):
-        return val_py(lem)
-    return None
+    return lemma_value(lem)
 
 
 def mode_of(line):
@@ -867,9 +887,9 @@ def oracle(line, a, fails, spellings):
             check_spelling(line["lang"], n, a, line, fails, spellings)
         return
     lem = line["lemma"]
-    if lem["t"] not in ("int", "flt", "special"):
+    v = lemma_value(lem)
+    if v is None:
         return
-    v = val_py(lem)
     md = mode_of(line)
     if md is None:
         return
